@@ -14,7 +14,10 @@ EXTENDS Naturals, Sequences, FiniteSets, TLC, Json
 \* dcsig: the end-entity key's signature over the delegated credential (RFC 9345); dccv: CertificateVerify made with the
 \* delegated key
 \* ske12srp: the signed ServerKeyExchange of the SRP_SHA_RSA suites (RFC 5054 2.5.1.3 / 2.6)
-Sites == {"ske12", "ske12srp", "cv12", "scv13", "ccv13", "phacv", "phafin", "fin", "srp", "binder", "checker", "dcsig", "dccv"}
+\* "srpsrv": the SRP CLIENT verifies that the server knows the password verifier (the server's Finished depends on a
+\*           premaster only the verifier yields); "degenerate" there = group parameters / a public value B that make
+\*           the premaster independent of the password (g = 1 with B = k + 1: S = 1; B = 0 mod N)
+Sites == {"ske12", "ske12srp", "cv12", "scv13", "ccv13", "phacv", "phafin", "fin", "srp", "srpsrv", "binder", "checker", "dcsig", "dccv"}
 SigSites == {"ske12", "ske12srp", "cv12", "scv13", "ccv13", "phacv", "dcsig", "dccv"}
 \* "absent": an identity is demanded (Checker) but the peer presents none (anonymous suite / empty Certificate)
 \* "stale" : the peer presents a ticket naming an identity, makes no valid proof for it (garbage binder) and the
@@ -48,7 +51,8 @@ Meaningful(c) ==
   /\ (c.site \notin SigSites => c.kt = "-" /\ c.cls \in {"none", "wrongsecret", "absent", "stale", "degenerate", "replayed"})
   \* (at a signature site: the genuine signature the same key made in an EARLIER handshake of the same two parties)
   /\ (c.cls = "replayed" => c.site \in {"phafin", "ske12", "cv12", "scv13", "ccv13"})
-  /\ (c.cls = "degenerate" => c.site = "srp" \/ c.site \in SigSites)
+  /\ (c.cls = "degenerate" => c.site \in {"srp", "srpsrv"} \/ c.site \in SigSites)
+  /\ (c.site = "srpsrv" => c.ver \in 1..3 /\ c.cls \in {"none", "wrongsecret", "degenerate"})
   \* (at site "srp": the ClientHello names an SRP user while a certificate suite is negotiated - no SRP proof is made at
   \*  all; the handshake may complete, the user name must not be attributed)
   /\ (c.cls = "absent" => (c.site = "srp" \/ (c.site = "checker" /\ (c.role = "c" => c.ver = 3))))
@@ -74,7 +78,7 @@ Meaningful(c) ==
 Cases == {c \in [site : Sites, cls : Classes, kt : KeyTypes, ver : 0..4, role : {"c", "s"}] :
             /\ Meaningful(c)
             \* which endpoint verifies at this site
-            /\ (c.site \in {"ske12", "ske12srp", "scv13", "dcsig", "dccv"} => c.role = "c")
+            /\ (c.site \in {"ske12", "ske12srp", "scv13", "dcsig", "dccv", "srpsrv"} => c.role = "c")
             /\ (c.site \in {"cv12", "ccv13", "phacv", "phafin", "srp", "binder"} => c.role = "s")}
 
 ProofValid(c) == c.cls = "none"
